@@ -133,6 +133,11 @@ func oracleFailFileReplays(r *CaseRun, prog *Prog) *Violation {
 	if len(files) == 0 {
 		return nil
 	}
+	return oracleFailFileReplaysPath(r, prog, files[0])
+}
+
+func oracleFailFileReplaysPath(r *CaseRun, prog *Prog, path string) *Violation {
+	files := []string{path}
 	_, _, words, err := ParseFailFile(files[0])
 	if err != nil {
 		return violf("failfile-unparsable", "fail file %s: %v", files[0], err)
